@@ -11,7 +11,8 @@ Rules == {"Q1", "Q2", "PANIC"}
 Add(v, x) == IF Len(v) >= 24 THEN v ELSE Append(v, x)
 Flush == viol = <<>> \/ PrintT(<<"RUNVIOL", ToJson([run |-> run, viol |-> viol])>>)
 Init == l = 1 /\ run = -1 /\ viol = <<>> /\ hits = [r \in Rules |-> 0] /\ nruns = 0
-Exempt(o) == (o.et = "ip6" /\ o.proto = 58 /\ o.ty \in {130, 131, 132, 143}) \/ (o.et = "ip4" /\ o.proto = 2)
+Pr(o) == IF "proto" \in DOMAIN o THEN o.proto ELSE -1
+Exempt(o) == (o.et = "ip6" /\ Pr(o) = 58 /\ o.ty \in {130, 131, 132, 143}) \/ (o.et = "ip4" /\ Pr(o) = 2)
 NonExempt(outs) == {i \in 1..Len(outs) : ~Exempt(outs[i])}
 Step ==
   /\ l <= Len(Rec) /\ l' = l + 1
@@ -20,7 +21,7 @@ Step ==
        [] r.ev = "poll" ->
             LET ne == NonExempt(r.out)
                 early == r.kind = "probe" /\ r.nrx = 0 /\ (r.deadline = -1 \/ r.now < r.deadline)
-                q1 == IF early /\ ne # {} THEN << <<l, "Q1", r.now, r.deadline, r.out[CHOOSE i \in ne : TRUE].et, r.out[CHOOSE i \in ne : TRUE].proto>> >> ELSE <<>>
+                q1 == IF early /\ ne # {} THEN << <<l, "Q1", r.now, r.deadline, r.out[CHOOSE i \in ne : TRUE].et, Pr(r.out[CHOOSE i \in ne : TRUE])>> >> ELSE <<>>
                 idle == r.nrx = 0 /\ r.out = <<>>
                 q2 == IF idle /\ ((r.pa # -1 /\ r.pa <= r.now) \/ (r.pd = 0)) THEN << <<l, "Q2", r.now, r.pa, r.pd>> >> ELSE <<>>
                 q2b == IF (r.pa = -1) # (r.pd = -1) \/ (r.pa > r.now /\ r.pd # r.pa - r.now) THEN << <<l, "Q2", "poll_delay-disagrees", r.now, r.pa, r.pd>> >> ELSE <<>>
